@@ -19,7 +19,8 @@ Arena == [A1 |-> [b |-> 1, shape |-> <<40>>],
           A3 |-> [b |-> 3, shape |-> <<2, 3, 19>>],
           A4 |-> [b |-> 4, shape |-> <<2, 2, 3, 17>>],
           B1 |-> [b |-> 5, shape |-> <<40>>],
-          B2 |-> [b |-> 6, shape |-> <<3, 37>>]]
+          B2 |-> [b |-> 6, shape |-> <<3, 37>>],
+          Q1 |-> [b |-> 7, shape |-> <<1, 6, 1, 4>>]]
 Names == DOMAIN Arena
 ShapeOf(h) == Arena[h].shape
 InitMem == [h \in Names |-> InitBlock(Arena[h].b, Prod(ShapeOf(h)), Cx)]
@@ -53,6 +54,13 @@ DrawRange(n, kinds) ==
          [] k \in {"int", "fix"} -> [k |-> k, i |-> IF f = n - 1 /\ enc # "pp" THEN -1 ELSE f]
 
 \* one slice of `shape`: a dynamic one (seq / all / bare integers with at least one seq) or a fixed one (fseq / all / fix)
+DrawSliceStyle(shape, style) ==
+    LET rk    == Len(shape)
+        main  == Pick(1..rk)
+    IN [a \in 1..rk |->
+          IF style = "dyn"
+          THEN DrawRange(shape[a], IF a = main \/ rk = 1 THEN {"seq"} ELSE {"seq", "seq", "all", "int"})
+          ELSE DrawRange(shape[a], IF a = main THEN {"fseq"} ELSE {"fseq", "fseq", "all", "fix"})]
 DrawSlice(shape, allowfixed) ==
     LET style == IF allowfixed THEN PickSeq(<<"dyn", "dyn", "fix">>) ELSE "dyn"
         rk    == Len(shape)
@@ -121,8 +129,102 @@ ChooseScalar(write, t) ==
     IN IF write THEN [e |-> "ScalarWrite", buf |-> h, shape |-> shp, idx |-> idx, aop |-> PickSeq(<<"set", "add", "sub", "mul">>), v |-> Val(Pick({-3, -2, 2, 3}))]
        ELSE [e |-> "ScalarRead", buf |-> h, shape |-> shp, idx |-> idx]
 
+\* ---- index-tensor and mask views (C19)
+Perm(S, salt) == SetToSortSeq(S, LAMBDA a, b : ((a * 7919 + salt) % 1009) * 1000 + a < ((b * 7919 + salt) % 1009) * 1000 + b)
+DrawIdx(size, n, distinct, t) ==
+    IF distinct THEN Perm(RandomSubset(n, 0..(size - 1)), Pick(0..1000)) ELSE [q \in 1..n |-> Pick(0..(size - 1))]
+IdxRhs(h, n, sameBuf, sel, t) ==
+    LET kind == IF sameBuf THEN "rv" ELSE PickSeq(<<"sc", "tn", "tn", "rv">>)
+    IN CASE kind = "sc" -> [k |-> "sc", v |-> Val(Pick({-3, -2, 2, 3}))]
+         [] kind = "tn" -> [k |-> "tn", vals |-> [q \in 1..n |-> Val(((q * 5 + Pick(0..6)) % 7) - 3)]]
+         [] kind = "rv" -> [k |-> "rv", buf |-> h, sel |-> [q \in 1..n |-> Pick(0..(Prod(ShapeOf(h)) - 1))]]
+\* forms:  flat (index tensor of flat offsets, any rank)  |  pair / it_int / int_it / it_fseq / fseq_it (rank 2)
+ChooseIndex(write, t) ==
+    LET form == PickSeq(<<"flat", "flat", "pair", "it_int", "int_it", "it_fseq", "fseq_it">>)
+        h    == IF form = "flat" THEN Pick(Names) ELSE Pick({"A2", "B2"})
+        shp  == ShapeOf(h)
+        size == Prod(shp)
+        aop  == PickSeq(<<"set", "set", "add", "sub", "mul">>)
+        ity  == PickSeq(<<"int", "int", "std::int64_t", "size_t">>)
+        na   == IF write THEN PickSeq(<<0, 0, 1>>) ELSE 0
+    IN IF form = "flat"
+       THEN LET n == Pick(1..(IF size > 24 THEN 24 ELSE size))
+                sel == DrawIdx(size, n, write, t)
+                \* result shape: rank 1 for a rank-1 parent, otherwise a same-rank shape <<1,..,1,n>>
+                rsh == [a \in 1..Len(shp) |-> IF a = Len(shp) THEN n ELSE 1]
+            IN [e |-> IF write THEN "IndexWrite" ELSE "IndexRead", buf |-> h, shape |-> shp, form |-> "flat", sel |-> sel, rshape |-> rsh,
+                ity |-> ity, aop |-> aop, na |-> na, rhs |-> IdxRhs(IF na = 1 THEN h ELSE Pick(SameRank(h)), n, na = 1, sel, t)]
+       ELSE LET r0 == IF form \in {"pair", "it_int", "it_fseq"} THEN [k |-> "it", idx |-> DrawIdx(shp[1], Pick(1..shp[1]), write, t)]
+                      ELSE IF form = "int_it" THEN [k |-> "int", i |-> Pick(0..(shp[1] - 1))]
+                      ELSE DrawRange(shp[1], {"fseq"})
+                r1 == IF form \in {"pair", "int_it", "fseq_it"} THEN [k |-> "it", idx |-> DrawIdx(shp[2], Pick(1..9), write, t)]
+                      ELSE IF form = "it_int" THEN [k |-> "int", i |-> Pick(0..(shp[2] - 1))]
+                      ELSE DrawRange(shp[2], {"fseq"})
+                axes == <<r0, r1>>
+                sel == IdxSel(shp, axes)
+                n == Len(sel)
+                rsh == <<Len(PerAxisIdx(r0, shp[1])), Len(PerAxisIdx(r1, shp[2]))>>
+            IN [e |-> IF write THEN "IndexWrite" ELSE "IndexRead", buf |-> h, shape |-> shp, form |-> form, axes |-> axes, sel |-> sel, rshape |-> rsh,
+                ity |-> ity, aop |-> aop, na |-> na, rhs |-> IdxRhs(IF na = 1 THEN h ELSE Pick(SameRank(h)), n, na = 1, sel, t)]
+ChooseMask(t) ==
+    LET h    == Pick(Names)
+        shp  == ShapeOf(h)
+        size == Prod(shp)
+        dens == Pick(1..4)
+        kind == PickSeq(<<"sc", "tn">>)
+    IN [e |-> "MaskWrite", buf |-> h, shape |-> shp, mask |-> [p \in 1..size |-> IF Pick(1..4) <= dens THEN 1 ELSE 0],
+        aop |-> PickSeq(<<"set", "set", "add", "sub", "mul">>),
+        rhs |-> IF kind = "sc" THEN [k |-> "sc", v |-> Val(Pick({-3, -2, 2, 3}))]
+                ELSE [k |-> "tn", vals |-> [q \in 1..size |-> Val(((q * 3 + Pick(0..4)) % 5) - 2)]]]
+
+\* ---- maps, reshape, flatten, squeeze, layout conversion, constructors (C20)
+Divs(n) == {d \in 1..n : n % d = 0}
+SameSizeShapes(n) == {<<n>>} \cup {<<a, n \div a>> : a \in Divs(n)}
+                     \cup UNION {{<<a, b, n \div (a * b)>> : b \in {x \in Divs(n) : n % (a * x) = 0}} : a \in Divs(n)}
+                     \cup UNION {{<<a, b, 2, n \div (2 * a * b)>> : b \in {x \in Divs(n) : n % (2 * a * x) = 0}} : a \in Divs(n)}
+Squeezed(shp) == SelectSeq(shp, LAMBDA x : x # 1)
+ChooseMap(t) ==
+    LET h    == Pick(Names)
+        own  == ShapeOf(h)
+        via  == IF h = "Q1" THEN PickSeq(<<"squeeze", "squeeze", "map", "owner">>) ELSE PickSeq(<<"map", "reshape", "reshape", "flatten", "owner">>)
+        shp  == CASE via = "owner" -> own
+                  [] via = "flatten" -> <<Prod(own)>>
+                  [] via = "squeeze" -> Squeezed(own)
+                  [] OTHER -> Pick(SameSizeShapes(Prod(own)))
+        op   == PickSeq(<<"slice", "slice", "whole", "scalar", "read", "sread">>)
+        \* dynamic seq views of a rank-1/rank-2 TensorMap do not compile in any configuration (the alias branch of the nd view builds
+        \* a TensorViewExpr<Tensor,1|2> from an array of seq): not offered, so aliases of rank <= 2 get compile-time views only
+        r    == IF via # "owner" /\ Len(shp) <= 2 THEN DrawSliceStyle(shp, "fix") ELSE DrawSlice(shp, TRUE)
+        rall == [a \in 1..Len(shp) |-> [k |-> "all"]]
+        ext  == SliceShape(shp, r)
+        idx  == [a \in 1..Len(shp) |-> IF Pick(1..3) = 1 THEN Pick((0 - shp[a])..-1) ELSE Pick(0..(shp[a] - 1))]
+        other == Pick(Names \ {h})
+        rk0  == PickSeq(<<"sc", "tn", "tn", "fl">>)
+        rk   == IF rk0 = "sc" /\ via # "owner" /\ op = "whole" THEN "tn" ELSE rk0      \* TensorMap has no operator=(scalar)
+        rhsOf(n) == CASE rk = "sc" -> [k |-> "sc", v |-> Val(Pick({-3, -2, 2, 3}))]
+                      [] rk = "tn" -> [k |-> "tn", vals |-> [q \in 1..n |-> Val(((q * 5 + Pick(0..6)) % 7) - 3)]]
+                      \* the first n cells of another buffer seen through flatten(): a map as right-hand side
+                      [] rk = "fl" -> IF n <= Prod(ShapeOf(other)) /\ Len(shp) = 1
+                                      THEN [k |-> "vw", buf |-> other, shape |-> <<Prod(ShapeOf(other))>>, r |-> <<[k |-> "seq", f |-> 0, l |-> n, s |-> 1]>>, via |-> "flatten"]
+                                      ELSE [k |-> "tn", vals |-> [q \in 1..n |-> Val(((q * 3 + Pick(0..4)) % 5) - 2)]]
+    IN CASE op = "slice" -> [e |-> "SliceWrite", buf |-> h, shape |-> shp, via |-> via, r |-> r, aop |-> PickSeq(Aops), na |-> 0, rhs |-> rhsOf(Prod(ext))]
+         [] op = "whole" -> [e |-> "SliceWrite", buf |-> h, shape |-> shp, via |-> via, whole |-> 1, r |-> rall, aop |-> PickSeq(Aops), na |-> 0, rhs |-> rhsOf(Prod(shp))]
+         [] op = "scalar" -> [e |-> "ScalarWrite", buf |-> h, shape |-> shp, via |-> via, idx |-> idx, aop |-> PickSeq(<<"set", "add", "sub", "mul">>), v |-> Val(Pick({-3, -2, 2, 3}))]
+         [] op = "read" -> [e |-> "SliceRead", buf |-> h, shape |-> shp, via |-> via, r |-> r, form |-> PickSeq(<<"ctor", "expr">>), m |-> Val(Pick({2, -3})), c |-> Val(Pick({1, -2}))]
+         [] op = "sread" -> [e |-> "ScalarRead", buf |-> h, shape |-> shp, via |-> via, idx |-> idx]
+ChooseLayout(t) ==
+    LET rk  == Pick(1..5)
+        shp == [a \in 1..rk |-> Pick(1..4)]
+        n   == Prod(shp)
+    IN IF Pick(1..2) = 1
+       THEN [e |-> "Layout", shape |-> shp, vals |-> [q \in 1..n |-> Val(q)]]
+       ELSE [e |-> "Ctor", kind |-> PickSeq(<<"ptr_row", "ptr_col", "arr", "arr_col", "vec", "vec_col", "ilist">>), shape |-> IF rk = 5 THEN SubSeq(shp, 1, 4) ELSE shp,
+             vals |-> [q \in 1..(IF rk = 5 THEN Prod(SubSeq(shp, 1, 4)) ELSE n) |-> Val(((q * 7) % 23) - 11)]]
+
 Draw(t) == CASE Mode = "write" -> IF Pick(1..6) = 1 THEN ChooseScalar(TRUE, t) ELSE ChooseWrite(FALSE, t)
              [] Mode = "read"  -> IF Pick(1..5) = 1 THEN ChooseScalar(FALSE, t) ELSE IF Pick(1..4) = 1 THEN ChooseWrite(FALSE, t) ELSE ChooseRead(t)
+             [] Mode = "index" -> IF Pick(1..5) = 1 THEN ChooseMask(t) ELSE IF Pick(1..3) = 1 THEN ChooseIndex(FALSE, t) ELSE ChooseIndex(TRUE, t)
+             [] Mode = "maps" -> IF Pick(1..5) = 1 THEN ChooseLayout(t) ELSE ChooseMap(t)
              [] Mode = "alias" -> IF Pick(1..5) = 1 THEN ChooseWrite(FALSE, t) ELSE ChooseWrite(TRUE, t)
 
 \* ---- Apply: domain check on the current memory, then the L1 action
@@ -137,9 +239,18 @@ InDomain(c) ==
       [] c.e = "SliceRead" -> \A a \in 1..Len(c.shape) : Admissible(c.r[a], c.shape[a])
       [] c.e = "ScalarWrite" -> SmallV(CombD(c.aop, Cell(mem[c.buf], ScalarOff(c.shape, c.idx)), c.v, Cx))
       [] c.e = "ScalarRead" -> TRUE
+      [] c.e = "IndexRead" -> TRUE
+      [] c.e \in {"Layout", "Ctor"} -> TRUE
+      [] c.e = "IndexWrite" -> /\ DupFree(c.sel)
+                               /\ \/ c.na = 1 \/ c.rhs.k # "rv" \/ c.rhs.buf # c.buf \/ c.rhs.sel = c.sel
+                                  \/ ToSetOf(c.rhs.sel) \cap ToSetOf(c.sel) = {}
+                               /\ SmallBlk(AssignSel(mem, c.buf, c.sel, c.aop, c.rhs, Cx)[c.buf])
+      [] c.e = "MaskWrite" -> SmallBlk(MaskAssign(mem, c.buf, c.mask, c.aop, c.rhs, Prod(c.shape), Cx)[c.buf])
 Effect(c) ==
     CASE c.e = "SliceWrite" -> SliceWrite(mem, c.buf, c.shape, c.r, c.aop, c.rhs, Cx)
       [] c.e = "ScalarWrite" -> AssignSel(mem, c.buf, <<ScalarOff(c.shape, c.idx)>>, c.aop, [k |-> "sc", v |-> c.v], Cx)
+      [] c.e = "IndexWrite" -> AssignSel(mem, c.buf, c.sel, c.aop, c.rhs, Cx)
+      [] c.e = "MaskWrite" -> MaskAssign(mem, c.buf, c.mask, c.aop, c.rhs, Prod(c.shape), Cx)
       [] OTHER -> mem
 
 None == [e |-> "none"]
